@@ -2153,6 +2153,8 @@ int
 evhttp_add_header(struct evkeyvalq *headers,
     const char *key, const char *value)
 {
+	const unsigned char *kp;
+
 	event_debug(("%s: key: %s val: %s\n", __func__, key, value));
 
 	/* RFC 9110 defines field-names as case-sensitive non-empty strings made of the following characters */
@@ -2160,7 +2162,12 @@ evhttp_add_header(struct evkeyvalq *headers,
 	// tchar          = "!" / "#" / "$" / "%" / "&" / "'" / "*" / "+" / "-" / "." / "^" / "_" / "`" / "|" / "~" / 0-9 / A-Z / a-z
 	/* For simplicity, we'll reject field-names containing the documented most dangerous characters */
 	// "Field values containing CR, LF, or NUL characters are invalid and dangerous, due to the varying ways that implementations might parse and interpret those characters; a recipient of CR, LF, or NUL within a field value MUST either reject the message or replace each of those characters with SP before further processing or forwarding of that message."
-	if (strchr(key, '\r') != NULL || strchr(key, '\n') != NULL || key[0] == '\0') {
+	for (kp = (const unsigned char *)key; *kp != '\0'; ++kp) {
+		/* no whitespace, control characters or ':' in a field name */
+		if (*kp <= 0x20 || *kp == 0x7f || *kp == ':')
+			break;
+	}
+	if (*kp != '\0' || key[0] == '\0') {
 		/* drop illegal headers */
 		event_debug(("%s: dropping illegal header key\n", __func__));
 		return (-1);
